@@ -58,7 +58,7 @@ def floors(tier):
     return {'evaluations': 1500, 'distinct_nontrivial': 300, 'fresh_interpreter_references': 150,
             'history_calls_compared': 1500, 'db_snapshots_compared': 1500, 'hist:mode:strict': 300,
             'hist:mode:tolerant': 300, 'hist:outcome:parse_error': 30, 'verbatim_arg_documents': 10,
-            'context_extending_documents': 9}
+            'context_extending_documents': 9, 'parses_with_shared_parser_object': 200}
 
 
 def setup(rec):
@@ -137,14 +137,17 @@ def check_case(case, rec, refs=None):
         ref = refs[key]
         before = db_snapshot(ctx)
         PROCESS_LOG.append([s, tol, cdesc])
-        got = json.loads(json.dumps(one_parse({'s': s, 'ctx': cdesc, 'tolerant': tol})))
+        got = json.loads(json.dumps(one_parse({'s': s, 'ctx': cdesc, 'tolerant': tol,
+                                               'shared_parser': bool(case.get('shared_parser'))})))
+        if case.get('shared_parser'):
+            rec.monitor('parses_with_shared_parser_object')
         after = db_snapshot(ctx)
         rec.monitor('db_snapshots_compared')
         rec.hist('mode', 'tolerant' if tol else 'strict')
         rec.hist('outcome', got['outcome'])
         if '\\vv' in s or '\\verb' in s:
             rec.monitor('verbatim_arg_documents')
-        full = {'ctx': case.get('ctx'), 'calls': list(PROCESS_LOG)}
+        full = {'ctx': case.get('ctx'), 'calls': list(PROCESS_LOG), 'shared_parser': bool(case.get('shared_parser'))}
         if before != after:
             diff = [k for k in before if before[k] != after.get(k)]
             rec.violation(full, 'parsing %r (call %d of the process, tolerant=%r) modified the context database '
@@ -189,7 +192,7 @@ def run_shard(desc, rec):
         L = rng.randint(10, desc['maxlen'])
         calls = [[rng.choice(docs), rng.random() < 0.5] for _ in range(L)]
         rec.case(L)
-        case = {'ctx': cdesc, 'calls': calls}
+        case = {'ctx': cdesc, 'calls': calls, 'shared_parser': bool(h % 2)}
         if h == 0:
             rec.sample({'ctx': cdesc, 'calls': calls[:4]})
         check_case(case, rec, refs)
